@@ -102,6 +102,8 @@ def run_property(prop, tier, configs=None):
     extra = {}
     if tier == "thorough" and hasattr(mod, "thorough_extra"):
         extra = mod.thorough_extra(all_obs) or {}
+    if tier == "thorough":
+        extra.update(thorough_common(prop, all_obs))
 
     known = [k for k in load_known() if k.get("property") == prop and k.get("status") == "known"]
     known_keys = {k["key"]: k for k in known}
@@ -184,6 +186,46 @@ def run_property(prop, tier, configs=None):
     print("%s tier=%s configs=%s obligations=%d discharged=%d known=%d violations=%d wall=%.1fs" %
           (prop, tier, ",".join(configs), len(distinct_keys), len(discharged), len(known_hit), len(violations), time.time() - t0))
     return 1 if violations else 0
+
+
+WITNESSES = {"C07": ["W2JoinConsumesHandle"], "C04": ["W3GetMutIsExclusive"], "C02": ["W3GetMutIsExclusive"],
+             "C08": ["W4SchedulerCannotMutateTasks"], "C17": ["W5AwaitConsumesHandle"], "C20": ["W6ThreadRngNotSeedable"]}
+
+
+def thorough_common(prop, all_obs):
+    """Thorough tier additions shared by all properties: K10 compile_fail witnesses (decide a type-level clause of the
+    property: a failing witness IS a violation) and the checker self-test on planted changes (evidence about the checker
+    only: a missed mutant is reported in the evidence and never as a violation of /repo)."""
+    extra = {}
+    sys.path.insert(0, os.path.join(VERIF, "tools"))
+    if prop in WITNESSES and not os.environ.get("VERIF_NO_WITNESS"):
+        import witness
+        res, out = witness.run()
+        for w in WITNESSES[prop]:
+            r = res.get(w, {})
+            all_obs.append({"rule": prop + ".K10", "key": "%s.K10|%s|rejected" % (prop, w), "ok": bool(r.get("compile_fail")),
+                            "desc": "witness %s: the violating program is rejected by the type checker with the expected error code" % w if r.get("compile_fail")
+                            else "witness %s: the violating program now COMPILES (or fails with another error): the type-level guarantee is gone" % w,
+                            "loc": "witness/src/lib.rs", "detail": out[-1500:] if not r.get("compile_fail") else None, "nontrivial": True, "config": "witness"})
+            all_obs.append({"rule": prop + ".K10", "key": "%s.K10|%s|twin" % (prop, w), "ok": bool(r.get("twin")),
+                            "desc": "witness %s: the compiling twin (same program without the offending line) builds" % w if r.get("twin")
+                            else "witness %s: the compiling twin no longer builds — witness not established (API path changed?)" % w,
+                            "loc": "witness/src/lib.rs", "detail": out[-1500:] if not r.get("twin") else None, "nontrivial": False, "config": "witness"})
+        extra["witnesses"] = {w: res.get(w) for w in WITNESSES[prop]}
+    if not os.environ.get("VERIF_NO_SELFTEST") and not os.environ.get("VERIF_REPO"):
+        import selftest as st
+
+        class A:
+            pass
+        a = A()
+        a.prop, a.id, a.seeded = prop, None, False
+        ms = st.load_mutants(a)
+        a.seeded = True
+        ms += st.load_mutants(a)
+        res = st.run(ms, int(os.environ.get("VERIF_SELFTEST_JOBS", "2"))) if ms else []
+        extra["checker_selftest"] = {"planted_changes": len(res), "caught": sum(1 for r in res if r["status"] == "caught"),
+                                     "results": [{"id": r["id"], "status": r["status"], "hit": (r.get("hit") or [])[:1]} for r in res]}
+    return extra
 
 
 def explain(path):
